@@ -181,7 +181,7 @@ fn set_destructive(_m: &Model) -> Vec<Vec<Bytes>> {
     vec![sv(&["SPOP", "s"]), sv(&["SPOP", "s", "1"]), sv(&["SPOP", "s", "2"]), sv(&["SPOP", "s2"]), sv(&["SPOP", "nokey"]), sv(&["SPOP", "w"])]
 }
 
-fn make_world(spec: &str) -> Option<Box<dyn World>> {
+pub fn make_world(spec: &str) -> Option<Box<dyn World>> {
     let (acts, probes): (Vec<Act>, fn(&Model) -> Vec<Vec<Bytes>>) = match spec {
         "c03-list" => (list_acts(), list_probes),
         "c03-set" => (set_acts(), set_probes),
